@@ -31,6 +31,14 @@ CHECKS = {
              "operation itself); each history is executed under the six dialect classes inline and parameterised, and TLC (J_C09) folds the logged calls "
              "through the spec and compares the real tail tokens and parameter list with the expected ones. Exhaustive over the stated product.",
         ref="6/C09", technique="TLA+ builder state machine with per-dialect PagTail (PT_Builder); TLC-generated setter histories replayed; TLC trace judge (J_C09)"),
+    "C11": dict(
+        text="PT_Builder specifies the namespace decision NeedsNS (joins, several FROM items, subquery in FROM, UPDATE..FROM, WHERE on a foreign table - "
+             "decided against the current sources), the qualifier of every reference QualOf (alias always, name iff namespaces are needed) and name positions "
+             "(INSERT columns, SET targets, ON CONFLICT targets, USING) that stay bare; QualSeq gives the expected <<clause, qualifier, column>> sequence per "
+             "statement kind and dialect, and TLC checks RefQualified on it. TLC grows ~19k statements: 5 kinds x 5 base source shapes (plain, aliased, schema, "
+             "subquery, CTE reference) x 8 second-source shapes x up to 2 (quick) / 3 (thorough) clause calls holding a field of an in-scope or foreign source. "
+             "Each runs under the six dialect classes; J_C11 (TLC) folds the logged calls and compares the qualifier projection of the real tokens with QualSeq.",
+        ref="6/C11", technique="TLA+ builder state machine with NeedsNS/QualSeq (PT_Builder); TLC-grown statements replayed; TLC trace judge on the qualifier projection (J_C11)"),
     "C13": dict(
         text="PT_Builder gives for every abstract state the statement kind, completeness and the depth-0 clause sequence ClauseSeq per dialect (rank tables of "
              "DESIGN App. C); TLC checks Confluent on the spec (adjacent independent calls commute in the model) while enumerating every subset of <=3 (quick) / "
